@@ -6,5 +6,6 @@ CONSTANTS
   Limits = {2097152, 5242880, 10485760}
   Procs = {"p1", "p2"}
   PoolIds = {"b1", "b2"}
+  ConcSet = "small"
 INVARIANTS ConcConforms AllAnswered
 CHECK_DEADLOCK FALSE
